@@ -754,6 +754,14 @@ fn cmd_check(map: &BTreeMap<String, String>) -> i32 {
         let signal = std::os::unix::process::ExitStatusExt::signal(&out.status);
         #[cfg(not(unix))]
         let signal: Option<i32> = None;
+        if let (None, Some(sig @ (9 | 15 | 2 | 1))) = (&line, signal) {
+            // killed from outside (out-of-memory killer, a supervisor's time limit): not a verdict
+            eprintln!("harness error: worker {w} was killed from outside (signal {sig})");
+            for w in 0..workers {
+                let _ = std::fs::remove_dir_all(format!("{base}-w{w}"));
+            }
+            return 2;
+        }
         if let (None, Some(sig)) = (&line, signal) {
             // the code under test took the whole process down (abort in a destructor, segfault): a violation
             // ("no schedule ... panics"), replayed by re-running this worker (a pure function of its arguments)
@@ -926,7 +934,7 @@ fn cmd_replay(path: &str) -> i32 {
             0
         }
         #[cfg(unix)]
-        Ok(o) if std::os::unix::process::ExitStatusExt::signal(&o.status).is_some() => {
+        Ok(o) if matches!(std::os::unix::process::ExitStatusExt::signal(&o.status), Some(s) if ![9, 15, 2, 1].contains(&s)) => {
             println!("reproduced by re-running worker {w} for {n} executions: process killed by signal {:?}", std::os::unix::process::ExitStatusExt::signal(&o.status));
             println!("VIOLATION property=C16 replay={path}");
             1
